@@ -70,11 +70,11 @@ def run(ctx):
                                                "events": ev[max(0, f["i"] - 4):f["i"]]})
     ctx.distinct += len(distinct)
     need = ["execute_deposit/ok", "execute_withdrawal/ok", "execute_order/ok", "execute_shift/ok", "claim_fees/ok",
-            "market_transfer_in/ok", "close_deposit/ok", "create_order/ok"]
+            "market_transfer_in/ok", "close_deposit/ok", "create_order/ok", "execute_increase/ok", "execute_decrease/ok"]
     missing = [c for c in need if c not in classes]
-    if (missing or not nonzero["fee"] or not nonzero["imp"] or not hops) and not ctx.violations:
-        raise vlib.ToolError("vacuity: missing %s, events with fee pool %d, impact pool %d, hops %d"
-                             % (missing, nonzero["fee"], nonzero["imp"], hops))
+    if (missing or not nonzero["fee"] or not nonzero["imp"] or not nonzero["col"] or not hops) and not ctx.violations:
+        raise vlib.ToolError("vacuity: missing %s, events with fee pool %d, impact pool %d, collateral %d, hops %d"
+                             % (missing, nonzero["fee"], nonzero["imp"], nonzero["col"], hops))
     ctx.cov["per_class"] = {c: classes[c] for c in sorted(classes)}
     ctx.cov["instructions_executed"] = instr
     ctx.cov["swap_hops_executed"] = hops
@@ -86,9 +86,10 @@ def run(ctx):
                                 "projection of Market pools / balances and SPL vault amounts (R2::vaults_state)"]
     ctx.assumptions += [
         "instructions bound to code: create/execute/close of deposits (incl. swap paths on both sides), withdrawals (incl. swap paths), "
-        "MarketSwap orders along 1-3 markets, shifts; claim_fees_from_market; market_transfer_in; plain SPL transfers into a vault",
-        "position orders (increase / decrease / liquidation / ADL) are not executed: the collateral inequality is checked on the design "
-        "(MC_Vaults: collateral in / out) and holds trivially (collateral 0) on the recorded states",
+        "MarketSwap orders along 1-3 markets, shifts, MarketIncrease / MarketDecrease orders; claim_fees_from_market; "
+        "market_transfer_in; plain SPL transfers into a vault",
+        "position collateral comes from MarketIncrease / MarketDecrease orders (leverage 2, constant prices, no swap path); liquidations, "
+        "ADL and position orders with swap paths are not executed",
         "prices are constant; swap fees 0.3% / 0.5% and quadratic swap impact are configured on the two-token markets so that the fee "
         "and impact pools are non-zero",
         "every monitor is evaluated on the state read back from the accounts after each successful instruction, including the "
